@@ -12,12 +12,14 @@ Unset Printing Implicit Defensive.
 Import GRing.Theory.
 Local Open Scope ring_scope.
 
+(* contract of numpy.linalg.solve: on an invertible matrix the returned X satisfies M X = N *)
+Definition solve_contract (F : fieldType) (solve : forall n p : nat, 'M[F]_n -> 'M[F]_(n, p) -> 'M[F]_(n, p)) : Prop :=
+  forall (n p : nat) (M : 'M[F]_n) (N : 'M[F]_(n, p)), M \in unitmx -> M *m solve n p M N = N.
+
 Section RedVarTheory.
 Variable F : fieldType.
 Variable solve : forall n p : nat, 'M[F]_n -> 'M[F]_(n, p) -> 'M[F]_(n, p).
-(* contract of numpy.linalg.solve *)
-Hypothesis solve_spec : forall (n p : nat) (M : 'M[F]_n) (N : 'M[F]_(n, p)),
-  M \in unitmx -> M *m solve M N = N.
+Hypothesis solve_spec : solve_contract solve.
 
 Notation MCF := (MC solve).
 
@@ -424,3 +426,20 @@ Qed.
 End Estimate.
 
 End RedVarTheory.
+
+(* ------------------------------------------------------------------ *)
+(* non-vacuity: the contract and the full-rank hypothesis are satisfiable *)
+(* ------------------------------------------------------------------ *)
+Lemma solve_by_inverse_contract (F : fieldType) :
+  solve_contract (fun (n p : nat) (M : 'M[F]_n) (N : 'M[F]_(n, p)) => invmx M *m N).
+Proof. by move=> n p M N u; rewrite mulKVmx. Qed.
+
+(* a concrete regressor matrix over the rationals with R R' invertible, and OLS recovering the coefficients *)
+Definition R_example : 'M[rat]_2 := (2%:R)%:M.
+
+Example full_rank_example : R_example *m R_example^T \in unitmx.
+Proof. by rewrite unitmx_mul unitmx_tr andbb unitmxE det_scalar unitfE expf_neq0 // pnatr_eq0. Qed.
+
+Example noise_free_example (b : 'M[rat]_(1, 2)) :
+  ols (M := MC (fun (n p : nat) (M : 'M[rat]_n) (N : 'M[rat]_(n, p)) => invmx M *m N)) (b *m R_example) R_example = b.
+Proof. by apply: ols_noise_free; [exact: solve_by_inverse_contract | exact: full_rank_example]. Qed.
